@@ -15,7 +15,18 @@ def parse(text):
     files = []
     cur = None
     hunk = None
-    for line in text.splitlines():
+    all_lines = text.splitlines()
+    need_old = need_new = 0     # lines still owed to the current hunk
+    for li, line in enumerate(all_lines):
+        if hunk is not None and (need_old > 0 or need_new > 0) and line[:1] in (" ", "+", "-"):
+            # inside a hunk every line is content, also one that looks like a
+            # header ("--- x" is the removal of the SQL comment "-- x")
+            hunk[1].append((line[0], line[1:]))
+            if line[0] in (" ", "-"):
+                need_old -= 1
+            if line[0] in (" ", "+"):
+                need_new -= 1
+            continue
         if line.startswith("diff --git "):
             cur = None
             hunk = None
@@ -34,6 +45,8 @@ def parse(text):
         if m and cur is not None:
             hunk = (int(m.group(1)), [])
             cur[1].append(hunk)
+            need_old = int(m.group(2)) if m.group(2) is not None else 1
+            need_new = int(m.group(4)) if m.group(4) is not None else 1
             continue
         if hunk is not None and line[:1] in (" ", "+", "-"):
             hunk[1].append((line[0], line[1:]))
